@@ -10,6 +10,7 @@ SDL = """
 directive @tag(n: Int, l: [Int]) on QUERY | MUTATION | SUBSCRIPTION | FIELD | FRAGMENT_DEFINITION | FRAGMENT_SPREAD | INLINE_FRAGMENT
 directive @onlyq(n: Int) on QUERY
 directive @lim(max: Int! = 3, hint: String) on FIELD | QUERY
+directive @bare on FIELD | FRAGMENT_SPREAD | INLINE_FRAGMENT | QUERY | FRAGMENT_DEFINITION
 directive @mark on FIELD_DEFINITION | ARGUMENT_DEFINITION | INPUT_FIELD_DEFINITION | SCALAR | ENUM | OBJECT
 interface Node { id: ID! }
 type A implements Node { id: ID! n: Int peer: Node }
@@ -90,7 +91,7 @@ class MyScalar:
 
 def make(name=NAME, **kw):
     from tartiflette import Scalar
-    for d in ("tag", "onlyq", "mark", "lim"):
+    for d in ("tag", "onlyq", "mark", "lim", "bare"):
         Directive(d, schema_name=name)(Hooks(d))
     Scalar("My", schema_name=name)(MyScalar)
     TypeResolver("Node", schema_name=name)(_tres)
